@@ -1,0 +1,40 @@
+//go:build verif
+
+package eval
+
+import (
+	"errors"
+
+	"github.com/cedar-policy/cedar-go/internal"
+	"github.com/cedar-policy/cedar-go/x/exp/ast"
+)
+
+// VerifFoldPolicy exposes the constant folder to the out-of-module verification harness.
+func VerifFoldPolicy(p *ast.Policy) *ast.Policy { return foldPolicy(p) }
+
+// VerifErrorClass classifies an evaluation error by the package's own sentinel errors, so
+// that monitors do not depend on message wording.
+func VerifErrorClass(err error) string {
+	switch {
+	case err == nil:
+		return "none"
+	case errors.Is(err, errOverflow):
+		return "overflow"
+	case errors.Is(err, errUnknownExtensionFunction):
+		return "unknownfn"
+	case errors.Is(err, errArity):
+		return "arity"
+	case errors.Is(err, errAttributeAccess):
+		return "attr"
+	case errors.Is(err, errTagAccess):
+		return "tag"
+	case errors.Is(err, errEntityNotExist), errors.Is(err, errUnspecifiedEntity):
+		return "entity"
+	case errors.Is(err, ErrType), errors.Is(err, internal.ErrNotComparable):
+		return "type"
+	case errors.Is(err, internal.ErrDecimal), errors.Is(err, internal.ErrDatetime),
+		errors.Is(err, internal.ErrDuration), errors.Is(err, internal.ErrIP):
+		return "ext"
+	}
+	return "other"
+}
